@@ -605,12 +605,21 @@ class SComplex(Sym):
         self.re = lift(re) if not isinstance(re, SNum) else re
         self.im = lift(im) if not isinstance(im, SNum) else im
 
+    @staticmethod
+    def _foreign(o):
+        """operand types that bring their own reflected operators (generic-element sequences, arrays)"""
+        return not isinstance(o, (Sym, int, float, complex, bool)) and not hasattr(o, '__float__') and not hasattr(o, '__complex__')
+
     def __add__(self, o):
+        if SComplex._foreign(o):
+            return NotImplemented
         o = to_complex(o)
         return SComplex(self.re + o.re, self.im + o.im)
     __radd__ = __add__
 
     def __sub__(self, o):
+        if SComplex._foreign(o):
+            return NotImplemented
         o = to_complex(o)
         return SComplex(self.re - o.re, self.im - o.im)
 
@@ -618,12 +627,23 @@ class SComplex(Sym):
         return to_complex(o) - self
 
     def __mul__(self, o):
+        if SComplex._foreign(o):
+            return NotImplemented
         o = to_complex(o)
         return SComplex(self.re * o.re - self.im * o.im, self.re * o.im + self.im * o.re)
     __rmul__ = __mul__
 
     def __truediv__(self, o):
+        if SComplex._foreign(o):
+            return NotImplemented
         if not isinstance(o, (SComplex, complex)):
+            # 0 / o is 0 wherever the quotient is defined (o != 0 is a side obligation of the other component)
+            zre, zim = _is_zero_poly(self.re), _is_zero_poly(self.im)
+            zero = SNum(z3.IntVal(0), 'int')
+            if zre and not zim:
+                return SComplex(zero, self.im / o)
+            if zim and not zre:
+                return SComplex(self.re / o, zero)
             return SComplex(self.re / o, self.im / o)
         o = to_complex(o)
         if _is_zero_poly(o.im):
